@@ -19,6 +19,11 @@ CHECKS = {
     note="Trusts TLC/SANY, Go toolchain, the recording appender plugin and VerifReset; Go map iteration order is sampled by repetition, not enumerated.",
     technique="TLA+ spec (Routing) model-checked with TLC; every enumerated configuration replayed through Refresh and observed via recording appenders",
     design="4/C02", engine="routing"),
+ "C01": dict(
+    text="TLC checks, for every list of 1-3 (quick) / 1-4 (thorough) appender references over a 6-point level lattice, that the sort-and-scan chaining algorithm equals the declarative effective range, and the delivery law (action property DeliveredExactly) for every logger range and event level and every logger kind (sync/async with/without logger layout, rolling-file sync/async x separate, console, file). ~14k (quick) emitted cases are rendered to configuration maps with a seeded order-preserving map onto 11 concrete level codes (NONE, custom AUDIT/TOP, MAX included), random letter case and both appenderRef spellings, run through Refresh, exercised through all 14 fixed-level entry points plus Record at all 11 levels with unique ids, and each appender's deliveries (recording appenders, rolling files, console, file) compared with the specification after Destroy.",
+    note="Trusts TLC/SANY, Go toolchain, the recording appender plugin. Explicit '~MAX' on a reference is not generated (property silent). Concrete level placement is sampled by seed, structure is exhaustive.",
+    technique="TLA+ spec (Levels) model-checked with TLC; emitted cases replayed through Refresh + 15 entry points",
+    design="4/C01", engine="levels"),
 }
 
 NOT_YET = {}
